@@ -374,6 +374,8 @@ pub struct Env {
     pub small: bool,
     /// insertion points only at the end of the block (C06: a terminator must stay last)
     pub ip_end_only: bool,
+    /// length of every variadic list argument (None: 0-4 elements)
+    pub list_len: Option<usize>,
 }
 
 pub struct Planned {
@@ -689,23 +691,23 @@ pub fn plan_call(
                         args.push(ArgVal::OptStr(if present { Some(cs.string()) } else { None }));
                     }
                     "implIntoIterator<Item=spirv::Word>" | "implAsRef<[spirv::Word]>" => {
-                        let n = if stopped { 0 } else { cs.below(5) };
+                        let n = if stopped { 0 } else if let Some(h) = env.list_len { h } else { cs.below(5) };
                         args.push(ArgVal::Words((0..n).map(|_| pick_id(cs, env)).collect()));
                     }
                     "implIntoIterator<Item=u32>" => {
-                        let n = if stopped { 0 } else { cs.below(5) };
+                        let n = if stopped { 0 } else if let Some(h) = env.list_len { h } else { cs.below(5) };
                         args.push(ArgVal::U32s((0..n).map(|_| cs.lit32()).collect()));
                     }
                     "implIntoIterator<Item=(spirv::Word,spirv::Word)>" => {
-                        let n = if stopped { 0 } else { cs.below(4) };
+                        let n = if stopped { 0 } else if let Some(h) = env.list_len { h } else { cs.below(4) };
                         args.push(ArgVal::PairsWW((0..n).map(|_| (pick_id(cs, env), pick_id(cs, env))).collect()));
                     }
                     "implIntoIterator<Item=(spirv::Word,u32)>" => {
-                        let n = if stopped { 0 } else { cs.below(4) };
+                        let n = if stopped { 0 } else if let Some(h) = env.list_len { h } else { cs.below(4) };
                         args.push(ArgVal::PairsWU((0..n).map(|_| (pick_id(cs, env), cs.lit32())).collect()));
                     }
                     "implIntoIterator<Item=(dr::Operand,spirv::Word)>" => {
-                        let n = if stopped { 0 } else { cs.below(4) };
+                        let n = if stopped { 0 } else if let Some(h) = env.list_len { h } else { cs.below(4) };
                         args.push(ArgVal::PairsOW(
                             (0..n)
                                 .map(|_| {
@@ -721,7 +723,7 @@ pub fn plan_call(
                     }
                     "implIntoIterator<Item=dr::Operand>" => {
                         // ext_inst operands: ids
-                        let n = if stopped { 0 } else { cs.below(4) };
+                        let n = if stopped { 0 } else if let Some(h) = env.list_len { h } else { cs.below(4) };
                         args.push(ArgVal::Operands((0..n).map(|_| Operand::IdRef(pick_id(cs, env))).collect()));
                     }
                     other => {
